@@ -390,14 +390,18 @@ func sutFrame(stderr string) string {
 		}
 		return ""
 	}
-	for _, l := range strings.Split(stderr[i:], "\n") {
-		l = strings.TrimSpace(l)
-		if strings.HasPrefix(l, "github.com/chrislusf/seaweedfs/weed/") && !strings.HasPrefix(l, "github.com/chrislusf/seaweedfs/weed/verif.") {
-			if k := strings.LastIndex(l, "("); k > 0 {
-				l = l[:k]
-			}
-			return strings.TrimPrefix(l, "github.com/chrislusf/seaweedfs/")
+	// the panicking goroutine's stack is the first one printed; its first frame that is not the
+	// runtime's decides, by source file (repository code, not the harness, a dependency or a shim)
+	st := stderr[i:]
+	if j := strings.Index(st, "goroutine "); j >= 0 {
+		st = st[j:]
+		if k := strings.Index(st, "\n\ngoroutine "); k >= 0 {
+			st = st[:k]
 		}
+	}
+	fn, file := simkit.TopFrame(st)
+	if simkit.IsSUTFile(file) {
+		return simkit.SUTFrameKey(fn, file)
 	}
 	return ""
 }
@@ -617,7 +621,7 @@ func handleWorkerDeath(a *agg, pc *propCfg, id, tier string, seed uint64, bin, v
 		return
 	}
 	frame2 := sutFrame(err2)
-	if frame == "" || frame2 == "" || !pc.CrashIsViolation {
+	if frame == "" || frame2 == "" {
 		a.mu.Lock()
 		a.harnessErrs = append(a.harnessErrs, fmt.Sprintf("worker died at run %d (variant %q), sut frame %q/%q, crash-is-violation=%v:\n%s", idx, variant, frame, frame2, pc.CrashIsViolation, tail(err2, 60)))
 		a.mu.Unlock()
